@@ -92,7 +92,12 @@ func loopDescs(fn *ssa.Function, order []*ssa.BasicBlock) map[*ssa.BasicBlock]*l
 			}
 			for _, ins := range b.Instrs {
 				switch ins.(type) {
-				case *ssa.Return, *ssa.Panic:
+				case *ssa.Return:
+					// `for i := range arr { if c(i) { return x } }`: executable iteration by
+					// iteration like a loop with a break (the return is one more guarded alternative)
+					ld.simple = false
+					ld.sideExits = true
+				case *ssa.Panic:
 					ld.simple = false
 					shape = false
 				}
@@ -450,6 +455,8 @@ func (ev *Evaluator) Call(fn *ssa.Function, args []Val, free []Val, st *State) V
 				return false
 			}
 			h := ld.header
+			exitAcc := map[edge]*Term{}
+			exitSt := map[edge]State{}
 			var ui *unrollIn
 			for k := 0; ; k++ {
 				if k > maxUnroll || ev.steps >= ev.maxSteps() {
@@ -509,6 +516,19 @@ func (ev *Evaluator) Call(fn *ssa.Function, args []Val, free []Val, st *State) V
 							continue
 						}
 						if ec, ok := econd[edge{b, su}]; ok && !ec.IsZero() {
+							if len(backIdx) != 0 && returnsLoopFreeValue(su, ld) {
+								// `if c(i) { return k }` with a symbolic c(i): the iteration leaves under
+								// c(i) and continues under !c(i). The exits of all iterations are
+								// collected and handed to the return block when the loop is done.
+								e := edge{b, su}
+								if acc, has := exitAcc[e]; has {
+									exitAcc[e] = cOr(acc, ec)
+								} else {
+									exitAcc[e] = ec
+								}
+								exitSt[e] = outSt[b]
+								continue
+							}
 							exitTaken = true
 						}
 					}
@@ -541,6 +561,16 @@ func (ev *Evaluator) Call(fn *ssa.Function, args []Val, free []Val, st *State) V
 					for _, su := range b.Succs {
 						delete(econd, edge{b, su})
 					}
+				}
+			}
+			// exits collected from the iterations that also continued
+			for e, c := range exitAcc {
+				if cur, has := econd[e]; has && !cur.IsZero() {
+					c = cOr(c, cur)
+				}
+				econd[e] = c
+				if _, has := outSt[e.from]; !has {
+					outSt[e.from] = exitSt[e]
 				}
 			}
 			ev.ctx = ctxS
@@ -678,4 +708,22 @@ func mergeVals(vs []Val, cs []*Term) Val {
 		v = iteVal(rel[i], vs[i], v)
 	}
 	return v
+}
+
+// returnsLoopFreeValue: b does nothing but return values that are not computed inside the loop
+// (constants, parameters, values defined before it).
+func returnsLoopFreeValue(b *ssa.BasicBlock, ld *loopDesc) bool {
+	if len(b.Instrs) != 1 {
+		return false
+	}
+	ret, ok := b.Instrs[0].(*ssa.Return)
+	if !ok {
+		return false
+	}
+	for _, v := range ret.Results {
+		if ins, ok := v.(ssa.Instruction); ok && ld.in[ins.Block()] {
+			return false
+		}
+	}
+	return true
 }
